@@ -14,6 +14,7 @@ typedef struct dw_iface {
     uint8_t  macAddress[6];
     int      iface;              /* index of the verification-port interface */
     int      call_parse_frame;   /* also run parseFrame (C01 flavour) */
+    int      defer_tick;         /* dw_frame leaves the closing tick (line 396) to the caller */
     int      mapping_only;       /* C14: skip the session-automaton / enumeration lines (365-391), tick without enumeration */
     /* observation of the periodic Hello */
     uint32_t hello_calls; uint64_t last_hello_call_ms; uint32_t hello_outside_tick;
